@@ -8,6 +8,7 @@ import (
 	"strings"
 	"sync"
 	"time"
+	"unsafe"
 )
 
 // SelfTest explores small programs whose outcome sets are known (and cross-checked against real goroutines)
@@ -189,7 +190,88 @@ func SelfTest() []string {
 	if r3.Diverged == "" {
 		fails = append(fails, "replay: out-of-range choice accepted")
 	}
+	fails = append(fails, raceSelfTest(expect)...)
 	return fails
+}
+
+// raceSelfTest: the happens-before oracle on programs whose racy / race-free status is known.
+func raceSelfTest(expect func(name string, cfg Config, want []string, wantFinding string)) []string {
+	type cell struct{ v int }
+	w := func(c *cell, fn string) {
+		Acc(func() unsafe.Pointer { return unsafe.Pointer(&c.v) }, "cell.v", fn, true)
+	}
+	r := func(c *cell, fn string) {
+		Acc(func() unsafe.Pointer { return unsafe.Pointer(&c.v) }, "cell.v", fn, false)
+	}
+	// R1: two unsynchronised writers -> race
+	expect("race: unsynchronised writes", Config{Bound: 1, Races: true, Body: func(x *Exec) {
+		c := &cell{}
+		GoHarness("a", func() { w(c, "a") })
+		GoHarness("b", func() { w(c, "b") })
+	}}, nil, "race:cell.v")
+	// R2: ordered by a channel -> no race (buffered and unbuffered)
+	for _, n := range []int{0, 1} {
+		n := n
+		expect(fmt.Sprintf("race: ordered by a channel (cap %d)", n), Config{Bound: 2, Races: true, Body: func(x *Exec) {
+			c := &cell{}
+			ch := make(chan int, n)
+			GoHarness("a", func() { w(c, "a"); Send(ch, 1) })
+			GoHarness("b", func() { Recv1(ch); w(c, "b") })
+		}}, nil, "")
+	}
+	// R3: the receive does not order what the sender does AFTER the send (buffered) -> race
+	expect("race: write after a buffered send", Config{Bound: 2, Races: true, Body: func(x *Exec) {
+		c := &cell{}
+		ch := make(chan int, 1)
+		GoHarness("a", func() { Send(ch, 1); w(c, "a") })
+		GoHarness("b", func() { Recv1(ch); r(c, "b") })
+	}}, nil, "race:cell.v")
+	// R4: go statement and AfterFunc order what came before them, not what comes after
+	expect("race: state prepared before go / AfterFunc", Config{Bound: 2, FireBudget: 1, Races: true, Body: func(x *Exec) {
+		c := &cell{}
+		w(c, "main")
+		GoHarness("child", func() { r(c, "child") })
+		AfterFunc(time.Hour, func() { r(c, "timer") })
+	}}, nil, "")
+	expect("race: write after arming the timer", Config{Bound: 2, FireBudget: 1, Races: true, Body: func(x *Exec) {
+		c := &cell{}
+		AfterFunc(time.Hour, func() { r(c, "timer") })
+		w(c, "main")
+	}}, nil, "race:cell.v")
+	// R5: close orders the closer's past before a receive that sees the close
+	expect("race: ordered by close", Config{Bound: 2, Races: true, Body: func(x *Exec) {
+		c := &cell{}
+		ch := make(chan int)
+		GoHarness("a", func() { w(c, "a"); Close(ch) })
+		GoHarness("b", func() { Recv2(ch); w(c, "b") })
+	}}, nil, "")
+	// R6: confinement handed over by message: loop owns the cell, producers only post -> no race; a producer that
+	// also touches the cell -> race even though every schedule serialises the accesses
+	for _, breach := range []bool{false, true} {
+		breach := breach
+		want := ""
+		if breach {
+			want = "race:cell.v"
+		}
+		expect(fmt.Sprintf("race: confinement (breach=%v)", breach), Config{Bound: 2, Races: true, StateKeys: true, Body: func(x *Exec) {
+			c := &cell{}
+			ch := make(chan int, 2)
+			GoHarness("loop", func() {
+				for i := 0; i < 2; i++ {
+					Recv1(ch)
+					w(c, "loop")
+				}
+			})
+			GoHarness("p1", func() { Send(ch, 1) })
+			GoHarness("p2", func() {
+				if breach {
+					r(c, "p2")
+				}
+				Send(ch, 2)
+			})
+		}}, nil, want)
+	}
+	return nil
 }
 
 func keys(m map[string]FoundAt) []string {
